@@ -10,7 +10,7 @@ M == << <<"G","E","T">>,
        <<"P","U","T">>,
        <<"D","E","L","E","T","E">>,
        <<"O","P","T","I","O","N","S">> >>
-\* targets: root, nested, with query, empty query, percent-escapes, raw non-ASCII, '?' inside the query
+\* targets: root, nested, with query, empty query, percent-escapes, raw non-ASCII, '?' inside the query, Unicode classes
 T == <<
   \* /
   [path |-> <<"/">>, hasq |-> FALSE, query |-> <<>>],
@@ -25,12 +25,14 @@ T == <<
   \* /café
   [path |-> <<"/","c","a","f","%C3","%A9">>, hasq |-> FALSE, query |-> <<>>],
   \* /a?b?c=d
-  [path |-> <<"/","a">>, hasq |-> TRUE, query |-> <<"b","?","c","=","d">>]
+  [path |-> <<"/","a">>, hasq |-> TRUE, query |-> <<"b","?","c","=","d">>],
+  \* /<U+00A0><U+0663>/İe<U+0301><U+0085>?<U+2028>=½&ß=<U+3000>   (Unicode classes at the start, in the middle and at the end of path and query)
+  [path |-> <<"/","%C2","%A0","%D9","%A3","/","%C4","%B0","e","%CC","%81","%C2","%85">>, hasq |-> TRUE, query |-> <<"%E2","%80","%A8","=","%C2","%BD","&","%C3","%9F","=","%E3","%80","%80">>]
 >>
 V == << <<"H","T","T","P","/","1",".","1">>, <<"H","T","T","P","/","1",".","0">> >>   \* HTTP/1.1 HTTP/1.0
 SL(m, t, v) == [method |-> M[m], path |-> T[t].path, hasq |-> T[t].hasq, query |-> T[t].query, version |-> V[v]]
-SL_All  == { SL(m, t, v) : m \in 1..5, t \in 1..7, v \in 1..2 }      \* 70 start lines
-SL_Six  == { SL(m, t, v) : m \in 1..5, t \in 1..6, v \in 1..2 }      \* 60 (quick)
+SL_All  == { SL(m, t, v) : m \in 1..5, t \in 1..8, v \in 1..2 }      \* 80 start lines
+SL_Six  == { SL(m, t, v) : m \in 1..5, t \in {1, 2, 3, 4, 5, 8}, v \in 1..2 }      \* 60 (quick)
 SL_Two  == { SL(1, 1, 1), SL(2, 3, 2) }                               \* GET / HTTP/1.1, POST /s?q=1&r=2 HTTP/1.0
 SL_One  == { SL(1, 1, 1) }
 
@@ -78,7 +80,29 @@ Catalogue == <<
   \* 21  X-Nbsp: <NBSP>x           (value starts with U+00A0: not OWS, belongs to the value)
   Plain(<<"X","-","N","b","s","p">>, <<" ">>, <<"%C2","%A0","x">>),
   \* 22  X-Name: 日本 😀            (3- and 4-byte UTF-8)
-  Plain(<<"X","-","N","a","m","e">>, <<" ">>, <<"%E6","%97","%A5","%E6","%9C","%AC"," ","%F0","%9F","%98","%80">>)
+  Plain(<<"X","-","N","a","m","e">>, <<" ">>, <<"%E6","%97","%A5","%E6","%9C","%AC"," ","%F0","%9F","%98","%80">>),
+  \* 23  X-Blank:<SP><SP>          (only blanks after the colon: the value is empty)
+  Plain(<<"X","-","B","l","a","n","k">>, <<" "," ">>, <<>>),
+  \* 24  X-U1: <U+2028><U+0663><U+0662><U+FF11>   (starts with non-ASCII white space, non-ASCII digits, ends with a fullwidth digit)
+  Plain(<<"X","-","U","1">>, <<" ">>, <<"%E2","%80","%A8","%D9","%A3","%D9","%A2","%EF","%BC","%91">>),
+  \* 25  x-u1: ²½Ⅷ<U+00A0><U+0085><U+1680><U+3000><U+1D7D9>   (same name in lower case; other numerics, white-space classes in the middle)
+  Plain(<<"x","-","u","1">>, <<" ">>, <<"%C2","%B2","%C2","%BD","%E2","%85","%A7","%C2","%A0","%C2","%85","%E1","%9A","%80","%E3","%80","%80","%F0","%9D","%9F","%99">>),
+  \* 26  X-U2: ßİﬁe<U+0301><U+0080><U+009F><DEL><U+E000>   (length-changing case mappings, combining mark, C1 controls, DEL, private use last)
+  Plain(<<"X","-","U","2">>, <<" ">>, <<"%C3","%9F","%C4","%B0","%EF","%AC","%81","e","%CC","%81","%C2","%80","%C2","%9F","%7F","%EE","%80","%80">>),
+  \* 27  Cookie: ²ß=İ<U+0663>; k<U+00A0>k=v<U+3000>v   (Unicode classes in cookie names and values, white space only inside)
+  CookieH(<<"C","o","o","k","i","e">>, <<" ">>, << << <<"%C2","%B2","%C3","%9F">>, <<"%C4","%B0","%D9","%A3">> >>, << <<"k","%C2","%A0","k">>, <<"v","%E3","%80","%80","v">> >> >>, <<";"," ">>),
+  \* 28  Cookie: =                 (a lone '=': one pair with empty name and value)
+  CookieH(<<"C","o","o","k","i","e">>, <<" ">>, << << <<>>, <<>> >> >>, <<";"," ">>),
+  \* 29  Cookie: ;                 (a lone ';': two empty pieces, no pair)
+  CookieH(<<"C","o","o","k","i","e">>, <<" ">>, << << <<>> >>, << <<>> >> >>, <<";">>),
+  \* 30  cookie: a=1;;b=2;junk     (doubled ';', a piece without '=')
+  CookieH(<<"c","o","o","k","i","e">>, <<" ">>, << << <<"a">>, <<"1">> >>, << <<>> >>, << <<"b">>, <<"2">> >>, << <<"j","u","n","k">> >> >>, <<";">>),
+  \* 31  X-Forwarded-For: 1.1.1.1, 2.2.2.2,3.3.3.3, 2001:db8::4   (four addresses: three proxies in order, then the peer)
+  XffH(<<"X","-","F","o","r","w","a","r","d","e","d","-","F","o","r">>, <<" ">>, << Ent(<<>>, <<"1",".","1",".","1",".","1">>, <<>>, TRUE), Ent(<<" ">>, <<"2",".","2",".","2",".","2">>, <<>>, TRUE), Ent(<<>>, <<"3",".","3",".","3",".","3">>, <<>>, TRUE), Ent(<<" ">>, <<"2","0","0","1",":","d","b","8",":",":","4">>, <<>>, TRUE) >>),
+  \* 32  x-forwarded-FOR: ,        (a lone ',': two empty entries, the peer is the origin)
+  XffH(<<"x","-","f","o","r","w","a","r","d","e","d","-","F","O","R">>, <<" ">>, << Ent(<<>>, <<>>, <<>>, FALSE), Ent(<<>>, <<>>, <<>>, FALSE) >>),
+  \* 33  X-Forwarded-For: 1.1.1.1,,<U+0661>.<U+0662>.<U+0663>.<U+0664>, <U+FF11>.<U+FF12>.<U+FF13>.<U+FF14>,2.2.2.2   (doubled ',', non-ASCII digits are no address)
+  XffH(<<"X","-","F","o","r","w","a","r","d","e","d","-","F","o","r">>, <<" ">>, << Ent(<<>>, <<"1",".","1",".","1",".","1">>, <<>>, TRUE), Ent(<<>>, <<>>, <<>>, FALSE), Ent(<<>>, <<"%D9","%A1",".","%D9","%A2",".","%D9","%A3",".","%D9","%A4">>, <<>>, FALSE), Ent(<<" ">>, <<"%EF","%BC","%91",".","%EF","%BC","%92",".","%EF","%BC","%93",".","%EF","%BC","%94">>, <<>>, FALSE), Ent(<<>>, <<"2",".","2",".","2",".","2">>, <<>>, TRUE) >>)
 >>
 
 \* bodies: none, empty, one LF, five bytes with CR LF NUL 0xFF, CR LF, something that looks like a field and an empty line
@@ -87,8 +111,13 @@ B(x)   == [hasBody |-> TRUE, body |-> x]
 Bodies4 == { NoBody, B(<<>>), B(<<LF>>), B(<<"a", CR, LF, NUL, "%FF">>) }
 Bodies6 == Bodies4 \cup { B(<<CR, LF>>), B(<<"X",":"," ","y","%0D","%0A","%0D","%0A">>) }
 Bodies3 == { NoBody, B(<<>>), B(<<"a", CR, LF, NUL, "%FF">>) }
+Bodies2 == { NoBody, B(<<"a", CR, LF, NUL, "%FF">>) }
 Bodies1 == { NoBody }
 BodiesF == { B(<<"a", CR, LF, NUL, "%FF">>) }
+\* n bytes, an LF every 7th, a CR every 11th, 0xFF every 13th: lengths around 2^8 (Content-Length 255, 256, 257)
+BodyN(n) == B([ i \in 1..n |-> IF i % 7 = 0 THEN LF ELSE IF i % 11 = 0 THEN CR ELSE IF i % 13 = 0 THEN "%FF" ELSE "b" ])
+BodiesScale == { NoBody, BodyN(255), BodyN(256), BodyN(257) }
+BodiesScaleQ == { NoBody, BodyN(256) }
 
 \* 1.2.3.4:5678 and [::1]:80
 Peer4 == [ip |-> <<"1",".","2",".","3",".","4">>, port |-> 5678]
@@ -96,9 +125,35 @@ Peer6 == [ip |-> <<":",":","1">>, port |-> 80]
 PeersOne == { Peer4 }
 PeersTwo == { Peer4, Peer6 }
 
-\* Content-Length / content-length
+\* Content-Length, content-length
 ClOne == { <<"C","o","n","t","e","n","t","-","L","e","n","g","t","h">> }
 ClTwo == ClOne \cup { <<"c","o","n","t","e","n","t","-","l","e","n","g","t","h">> }
+\* ... CONTENT-length, cONTENT-lENGTH
+ClThree == ClTwo \cup { <<"C","O","N","T","E","N","T","-","l","e","n","g","t","h">> }
+ClMixed == ClOne \cup { <<"c","O","N","T","E","N","T","-","l","E","N","G","T","H">> }
+
+(* Scale family (repetition): n fields drawn from a pool of k names, so every name occurs about n/k times
+   among the others; the i-th field is spelt as in the pool, in lower or in UPPER case in turn and its
+   value is the decimal i followed by the pool index, so that any reordering of same-named fields or
+   any confusion of names shows.  n sits on both sides of 20 and 32 (the run lengths up to which
+   Rust's unstable / stable sorts fall back to insertion sort) and goes up to 100. *)
+Pool == << <<"H","o","s","t">>, <<"X","-","D","u","p">>, <<"A","c","c","e","p","t">>, <<"V","i","a">>, <<"x","-","a">>, <<"E","T","a","g">>, <<"L","i","n","k">>, <<"D","a","t","e">>, <<"A","l","l","o","w">>, <<"A","g","e">>, <<"O","r","i","g","i","n">> >>
+\*        Host, X-Dup, Accept, Via, x-a, ETag, Link, Date, Allow, Age, Origin
+ScaleName(i, k) == LET nm == Pool[((i * 7) % k) + 1]
+                   IN IF i % 3 = 0 THEN nm ELSE IF i % 3 = 1 THEN LowerSeq(nm) ELSE UpperSeq(nm)
+ScaleHeaders(n, k) == [ i \in 1..n |-> Plain(ScaleName(i, k), IF i % 4 = 0 THEN <<>> ELSE <<SP>>, Dec(i) \o <<"-">> \o Dec(((i * 7) % k) + 1)) ]
+ScaleN == {19, 20, 21, 22, 31, 32, 33, 34, 64, 100}
+ScaleK == {3, 11}
+InitScale ==
+  /\ \E n \in ScaleN, k \in ScaleK, bd \in Bodies :
+        LET sl == SL(2, 3, 1)
+        IN req = [method |-> sl.method, path |-> sl.path, hasq |-> sl.hasq, query |-> sl.query, version |-> sl.version,
+                  headers |-> ScaleHeaders(n, k), hasBody |-> bd.hasBody, body |-> bd.body]
+  /\ peer \in Peers
+  /\ clName = <<>> /\ clAfter = 0 /\ wire = <<>>
+  /\ pc = "build"
+  /\ pos = 0 /\ cons = 0 /\ line = <<>> /\ acc = EmptyAcc /\ need = 0
+  /\ out = <<>> /\ res2 = Bad
 
 (* Generation (method A): one JSON line per built request - the bytes, the peer and the abstract
    request the specification expects (Norm; equal to Denote of the bytes by Lemma_DenoteRender,
